@@ -282,6 +282,33 @@ type runCfg struct {
 	URLHost string `json:"url_host,omitempty"`
 	// CNAMEFails: the resolver has no canonical name to offer (lookup error); the name in the URL is used
 	CNAMEFails bool `json:"cname_lookup_fails,omitempty"`
+	// PriorGiveUp: the same spnego.Client has been used before for a call that ended at the attempt limit (a server
+	// that only ever challenges)
+	PriorGiveUp bool `json:"client_used_before_for_a_call_that_gave_up,omitempty"`
+	// Piecewise: the body comes from a reader that hands out at most 1000 octets per Read, with ContentLength declared
+	Piecewise bool `json:"body_reader_delivers_in_pieces,omitempty"`
+}
+
+// pieces hands out its data at most n octets per Read.
+type pieces struct {
+	b []byte
+	n int
+}
+
+func (p *pieces) Read(out []byte) (int, error) {
+	if len(p.b) == 0 {
+		return 0, io.EOF
+	}
+	k := p.n
+	if k > len(p.b) {
+		k = len(p.b)
+	}
+	if k > len(out) {
+		k = len(out)
+	}
+	copy(out, p.b[:k])
+	p.b = p.b[k:]
+	return k, nil
 }
 
 // hostOfURL: the host name a URL-derived service principal is made of (no port, no trailing dot).
@@ -330,10 +357,29 @@ func runOne(rc runCfg) (string, map[string]interface{}, string) {
 	var rdr io.Reader
 	if rc.BodyLen > 0 || rc.Method == "POST" {
 		rdr = bytes.NewReader(body)
+		if rc.Piecewise {
+			rdr = &pieces{b: append([]byte{}, body...), n: 1000}
+		}
 	}
 	req, err := http.NewRequest(rc.Method, url, rdr)
 	if err != nil {
 		return "harness", map[string]interface{}{"err": err.Error()}, ""
+	}
+	if rc.Piecewise {
+		req.ContentLength = int64(len(body))
+	}
+	if rc.PriorGiveUp {
+		// an earlier call on the same client against a server that challenges for ever; its outcome is not this run's subject
+		sc.word, sc.tail = nil, r401Neg
+		if r0, e0 := http.NewRequest("GET", url, nil); e0 == nil {
+			func() {
+				defer func() { recover() }()
+				if resp0, err0 := hc.Do(r0); err0 == nil && resp0 != nil && resp0.Body != nil {
+					resp0.Body.Close()
+				}
+			}()
+		}
+		sc.word, sc.tail, sc.reqs = rc.Word, rc.Tail, nil
 	}
 	var resp *http.Response
 	var derr error
@@ -543,6 +589,17 @@ func matrix() []runCfg {
 	}
 	for _, w := range [][]int{{r401Neg}, {r302Same, r401Neg}} {
 		out = append(out, runCfg{Word: w, Tail: r200, Method: "GET", Consume: "all", SPN: "", Etype: 18, CNAMEFails: true})
+	}
+	// a client that has given up once before; bodies delivered in pieces by their reader
+	for _, w := range [][]int{{r401Neg}, {r401Neg, r401Neg}, {r200}, {r302Same, r401Neg}} {
+		for _, spn := range []string{"HTTP/host.test.gokrb5", ""} {
+			out = append(out, runCfg{Word: w, Tail: r200, Method: "GET", Consume: "all", SPN: spn, Etype: 18, PriorGiveUp: true})
+			for _, cons := range []string{"all", "half", "none"} {
+				for _, bl := range []int{999, 1000, 1001, 65536} {
+					out = append(out, runCfg{Word: w, Tail: r200, Method: "POST", BodyLen: bl, Consume: cons, SPN: spn, Etype: 18, Piecewise: true})
+				}
+			}
+		}
 	}
 	return out
 }
